@@ -111,7 +111,7 @@ pub fn run(ctx: &Ctx) {
          right-nested subtraction, calls of sums, one long string literal of escapes, deep terms followed by a numeric index, numeric \
          index chains, deep operands in never-evaluated positions of ==, and, or, if, and deep terms followed by a syntax error) x depth on a geometric ladder 16, 24, 32, ... (x1.5 / x1.33 steps) up to 2^17 (quick) / 2^18 \
          (thorough) x operation in {parse, parse as rule, display, debug, clone, compare, drop, evaluate, evaluate as a rule of a ruleset built through with_rule / with_rules, compare two rules of different names holding the tree, debug-print a rule holding the tree} x stack in {8 MiB, 2 MiB}; \
-         each case is one child process whose operation runs on a thread of exactly that stack size; trees are obtained by parsing \
+         each case is one child process whose operation runs on a thread of exactly that stack size; every ladder is climbed twice, by a release build of the child and (to 2^14 / 2^16) by a dev-profile build (no optimisation: larger frames, no tail calls; signatures end in `:dev`); trees are obtained by parsing \
          the text and leaked after the operation so that only the named operation recurses. Each (construct, operation, stack) \
          ladder is climbed until the first crash. Oracle: the child exits normally; death by signal is the property's failure; \
          watchdog expiry is an infrastructure error. Non-trivial: depth >= 256. A crash deeper than the recorded safe depth of a \
@@ -122,11 +122,19 @@ pub fn run(ctx: &Ctx) {
 
     let max_pow = ctx.tier.pick(17u32, 18u32);
     let rungs = ladder(max_pow);
+    // the child built with the dev profile (no optimisation: larger frames, every self-call a real call) climbs a shorter
+    // ladder: its limits are lower and its runs slower
+    let dev_bin = deep_bin_dev();
+    let dev_rungs = ladder(ctx.tier.pick(14u32, 16u32));
+    ctx.extra("dev_profile_child", json!(dev_bin.is_some()));
     let mut triples = vec![];
     for c in CONSTRUCTS {
         for o in OPS {
             for (sname, sbytes) in STACKS {
-                triples.push((c, o, sname, sbytes));
+                triples.push((c, o, sname, sbytes, false));
+                if dev_bin.is_some() {
+                    triples.push((c, o, sname, sbytes, true));
+                }
             }
         }
     }
@@ -141,19 +149,20 @@ pub fn run(ctx: &Ctx) {
     }
     let results: Vec<TripleResult> = triples
         .par_iter()
-        .map(|(c, o, sname, sbytes)| {
-            let sig = format!("deep:{o}:{c}:{sname}");
+        .map(|(c, o, sname, sbytes, dev)| {
+            let sig = format!("deep:{o}:{c}:{sname}{}", if *dev { ":dev" } else { "" });
             let mut r = TripleResult { sig, runs: 0, deep_runs: 0, safe_max: 0, crash_at: None, infra: None };
-            for &rung in &rungs {
+            for &rung in if *dev { &dev_rungs } else { &rungs } {
                 // seeded jitter: a depth between this rung and the next one (up to +12 %), different per triple and seed
                 let mut h = std::collections::hash_map::DefaultHasher::new();
-                std::hash::Hash::hash(&(ctx.seed, *c, *o, *sname, rung), &mut h);
+                std::hash::Hash::hash(&(ctx.seed, *c, *o, *sname, rung, *dev), &mut h);
                 let d = rung + (std::hash::Hasher::finish(&h) as usize) % (rung / 8).max(1);
                 r.runs += 1;
                 if d >= 256 {
                     r.deep_runs += 1;
                 }
-                match run_child(c, d, o, *sbytes) {
+                let outcome = if *dev { run_child_bin(dev_bin.as_ref().unwrap(), c, d, o, *sbytes) } else { run_child(c, d, o, *sbytes) };
+                match outcome {
                     // (a panic is a matter for C01 / C06; here only the stack matters)
                     ChildResult::Completed | ChildResult::Panicked => r.safe_max = d,
                     ChildResult::Crashed(sig) => {
@@ -191,12 +200,12 @@ pub fn run(ctx: &Ctx) {
         }
         if let Some((d, signal)) = r.crash_at {
             let parts: Vec<&str> = r.sig.split(':').collect();
-            let case = json!({"construct": parts[2], "op": parts[1], "stack": parts[3], "depth": d, "signal": signal});
+            let case = json!({"construct": parts[2], "op": parts[1], "stack": parts[3], "depth": d, "signal": signal, "dev_profile": parts.len() > 4});
             let issue = Issue::new(
                 r.sig.clone(),
                 format!(
-                    "{} of a {}-deep `{}` expression on a {} stack killed the process with signal {signal} (largest depth that completed: {})",
-                    parts[1], d, parts[2], parts[3], r.safe_max
+                    "{} of a {}-deep `{}` expression on a {} stack{} killed the process with signal {signal} (largest depth that completed: {})",
+                    parts[1], d, parts[2], parts[3], if parts.len() > 4 { " (child built with the dev profile)" } else { "" }, r.safe_max
                 ),
             );
             match known_safe(ctx, &r.sig) {
@@ -236,7 +245,9 @@ pub fn replay(j: &serde_json::Value) -> Option<Verdict> {
     let s = j.get("stack")?.as_str()?;
     let d = j.get("depth")?.as_u64()? as usize;
     let bytes = STACKS.iter().find(|(n, _)| *n == s)?.1;
-    Some(match run_child(c, d, o, bytes) {
+    let dev = j.get("dev_profile").and_then(|x| x.as_bool()).unwrap_or(false);
+    let outcome = if dev { run_child_bin(&deep_bin_dev()?, c, d, o, bytes) } else { run_child(c, d, o, bytes) };
+    Some(match outcome {
         ChildResult::Crashed(sig) => Err(Issue::new(
             format!("deep:{o}:{c}:{s}"),
             format!("{o} of a {d}-deep `{c}` expression on a {s} stack killed the process with signal {sig}"),
